@@ -15,9 +15,19 @@
      row's type and carries its presence index;
    - the table the compiler emits is the set as written for INTEGER identifiers and
      no element set made of one object alone — refuted for OBJECT IDENTIFIER
-     identifiers and for a lone object (known findings). *)
+     identifiers and for a lone object (known findings);
+   - the REPRESENTATION of identifier cells (Rt/OpenTypeCell.v): the minimal
+     two's-complement octets of an identifier denote it, for every integer; the
+     compiler's INTEGER_t emitter (-fwide-types) yields exactly these octets, and
+     yields something exactly on 0..32767; INTEGER_compare == 0 on two non-empty
+     INTEGER_t is equality of the integers they denote; the selector over octet cells
+     that denote the identifiers, given any octets denoting the decoded identifier, is
+     the selector over the abstract cells, so
+     the emitted INTEGER_t table resolves like the set as written and the frame
+     decoders over it are the abstract ones; a cell one octet short loses its row
+     and answers to another identifier (witness). *)
 From Coq Require Import ZArith List Bool.
-From A1 Require Import Base.Bytes Leaf.BerTL Rt.Types Rt.Comb Rt.Der Rt.DerProofs Rt.OpenType Rt.OpenTypeProofs.
+From A1 Require Import Base.Bytes Leaf.BerTL Rt.Types Rt.Comb Rt.Der Rt.DerProofs Rt.Uper Rt.OpenType Rt.OpenTypeProofs Rt.OpenTypeCell Rt.OpenTypeCellProofs.
 Import ListNotations.
 Local Open Scope Z_scope.
 
@@ -85,3 +95,73 @@ Theorem C18_lone_object_refuted :
   exists s v, select (spec_table s) v <> None /\ select (compile_table s) v = None.
 Proof. exact lone_object_refuted. Qed.
 Print Assumptions C18_lone_object_refuted.
+
+(* ---------------- identifier cells as emitted ---------------- *)
+
+Theorem C18_cell_octets_denotes : forall z,
+  twos_value (cell_octets z) = z /\ minimal_twos (cell_octets z) = true /\
+  bytes_ok (cell_octets z) /\ cell_octets z <> [].
+Proof. exact cell_octets_denotes. Qed.
+Print Assumptions C18_cell_octets_denotes.
+
+Theorem C18_emit_wide_cell_exact : forall z bs, emit_wide_cell z = Some bs -> bs = cell_octets z.
+Proof. exact emit_wide_cell_exact. Qed.
+Print Assumptions C18_emit_wide_cell_exact.
+
+Theorem C18_emit_wide_cell_domain : forall z, emit_wide_cell z = None <-> (z < 0 \/ 32767 < z).
+Proof. exact emit_wide_cell_domain. Qed.
+Print Assumptions C18_emit_wide_cell_domain.
+
+Theorem C18_octets_eqb_value : forall a b, bytes_ok a -> bytes_ok b -> a <> [] -> b <> [] ->
+  (octets_eqb a b = true <-> twos_value a = twos_value b).
+Proof. exact octets_eqb_value. Qed.
+Print Assumptions C18_octets_eqb_value.
+
+Theorem C18_select_denoting : forall etbl tbl key, cells_denote etbl tbl -> bytes_ok key -> key <> [] ->
+  select_octets etbl key = select tbl (VInt (twos_value key)).
+Proof. exact select_denoting. Qed.
+Print Assumptions C18_select_denoting.
+
+Theorem C18_select_encoded : forall tbl z, int_cells tbl ->
+  select_rep RWide (encode_table tbl) (VInt z) = select tbl (VInt z).
+Proof. exact select_encoded. Qed.
+Print Assumptions C18_select_encoded.
+
+Theorem C18_emit_table_wide_partial : forall s t,
+  Forall (fun g => length g <> 1%nat) s -> int_cells (concat s) ->
+  emit_table RWide s = Some t ->
+  t = encode_table (spec_table s) /\
+  forall z, select_rep RWide t (VInt z) = select (spec_table s) (VInt z).
+Proof. exact emit_table_wide_partial. Qed.
+Print Assumptions C18_emit_table_wide_partial.
+
+Theorem C18_emit_rows_wide_domain : forall tbl, int_cells tbl ->
+  (emit_rows RWide tbl <> None <-> Forall (fun r => exists z, fst r = VInt z /\ 0 <= z <= 32767) tbl).
+Proof. exact emit_rows_wide_domain. Qed.
+Print Assumptions C18_emit_rows_wide_domain.
+
+Theorem C18_wide_ber_frame_equiv : forall idt opens tbl bs, int_cells tbl -> int_ty idt = true ->
+  ber_dec_frame_rep RWide (Frame idt opens (encode_table tbl)) bs = ber_dec_frame (Frame idt opens tbl) bs.
+Proof. exact wide_ber_frame_equiv. Qed.
+Print Assumptions C18_wide_ber_frame_equiv.
+
+Theorem C18_wide_uper_frame_equiv : forall tg c opens tbl bs, int_cells tbl ->
+  uper_dec_frame_rep RWide (Frame (TInt tg c) opens (encode_table tbl)) bs =
+  uper_dec_frame (Frame (TInt tg c) opens tbl) bs.
+Proof. exact wide_uper_frame_equiv_int. Qed.
+Print Assumptions C18_wide_uper_frame_equiv.
+
+Theorem C18_wide_encoders_equiv : forall idt opens tbl fv,
+  der_frame (Frame idt opens (encode_table tbl)) fv = der_frame (Frame idt opens tbl) fv /\
+  uper_frame (Frame idt opens (encode_table tbl)) fv = uper_frame (Frame idt opens tbl) fv.
+Proof. intros. split; [apply der_frame_encoded|apply uper_frame_encoded]. Qed.
+Print Assumptions C18_wide_encoders_equiv.
+
+Theorem C18_short_cell_refuted :
+  exists z bs t, emit_wide_cell_short z = Some bs /\
+    select_rep RWide [(VOct bs, [t])] (VInt z) = None /\
+    select_rep RWide [(VOct bs, [t])] (VInt (z - 256)) <> None /\
+    select_rep RWide (encode_table [(VInt z, [t])]) (VInt z) <> None /\
+    select_rep RWide (encode_table [(VInt z, [t])]) (VInt (z - 256)) = None.
+Proof. exact short_cell_refuted. Qed.
+Print Assumptions C18_short_cell_refuted.
